@@ -8,6 +8,7 @@ import EngineModel.Driver.Values
 import EngineModel.Pure.Cxx
 import EngineModel.Pure.Waveform
 import EngineModel.Pure.Beatgrid
+import EngineModel.Pure.BeatgridFloat
 import EngineModel.Pure.Detect
 import EngineModel.Gen.TrackUtilsGen
 import EngineModel.Gen.DetectGen
@@ -68,18 +69,8 @@ def wfSpec (a : List String) : String :=
   | _ => "bad-op args"
 
 /-! ### beat grid normalisation over hardware floats -/
-open Pure.Beatgrid in
-def floatNum : Num Float where
-  ofInt i := (Int64.ofInt i).toFloat
-  add a b := a + b
-  sub a b := a - b
-  mul a b := a * b
-  div a b := a / b
-  lt a b := a < b
-  le a b := a ≤ b
-  ceil32 x :=
-    let c := x.ceil
-    if c.isNaN ∨ c ≥ 2147483648.0 ∨ c < -2147483648.0 then none else some c.toInt64.toInt
+/-- The hardware-float instance lives in `Pure/BeatgridFloat.lean` (C20 states theorems about it). -/
+abbrev floatNum : Pure.Beatgrid.Num Float := Pure.Beatgrid.floatNum
 
 open Pure.Beatgrid in
 def bgNorm (a : List String) : String :=
